@@ -43,9 +43,10 @@ from calmjs.parse.unicode_chars import (
     CONNECTOR_PUNCTUATION,
 )
 
-# any character that may be part of an identifier name, keyword or number
+# any character that may be part of an identifier name (a backslash
+# starts a unicode escape sequence there), keyword or number
 _word = (
-    r'(?:[\w$]|' + LETTER + r'|' + DIGIT + r'|' + COMBINING_MARK + r'|' +
+    r'(?:[\w$\\]|' + LETTER + r'|' + DIGIT + r'|' + COMBINING_MARK + r'|' +
     CONNECTOR_PUNCTUATION + r'|[\u200c\u200d])')
 # a '/' followed by the '/' of a regex literal would start a line comment
 word = re.compile(_word)
